@@ -19,6 +19,8 @@ def gen_catalog(rng, loaded=True):
     for _ in range(rng.randint(1, 4)):
         nm = rng.choice(ZONE_NAMES)
         cl = rng.choice([1, 1, 1, 3, 7])
+        if rng.random() < 0.04:
+            cl = rng.choice([255, 254])          # `Class` is a bare u16: an entry of class 255 / 254 can be configured; QCLASS * is NOTIMP all the same
         st = rng.choice(["L", "N", "F"] if loaded else ["N", "F"])
         e = f"{cl},{hx(enc_name(nm))},{st}"
         if st == "L":
